@@ -55,14 +55,16 @@ def verify(wt, name):
     demo = [f for f in os.listdir(wt) if f.startswith("demo_")][0]
     rc1, o1 = sh("/venv/bin/python -W ignore %s" % demo, cwd=wt, env=env)
     rc2, o2 = sh("/venv/bin/python -m pytest -q -p no:cacheprovider tests/menelaus 2>&1 | tail -3", cwd=wt, env=env)
-    sh("git stash -q -- menelaus", cwd=wt)
+    # (no git stash: stash refs are shared by all worktrees of a repository)
+    tmp = "/tmp/seedverify_%s.diff" % name
+    sh("git diff -- menelaus > %s && git checkout -- menelaus" % tmp, cwd=wt)
     rc3, o3 = sh("/venv/bin/python -W ignore %s" % demo, cwd=wt, env=env)
-    sh("git stash pop -q", cwd=wt)
+    sh("git apply %s && rm -f %s" % (tmp, tmp), cwd=wt)
     ok = rc1 == 1 and rc3 == 0 and " passed" in o2 and "failed" not in o2
     m = load(name)
     m["confirmed"] = {"demo_with_change_exit": rc1, "demo_without_change_exit": rc3, "suite_with_change": o2.strip().splitlines()[-1] if o2.strip() else "",
                       "ok": ok, "commands": ["PYTHONPATH=<worktree> /venv/bin/python %s" % demo, "PYTHONPATH=<worktree> /venv/bin/python -m pytest -q tests/menelaus",
-                                             "git stash -- menelaus; demo again; git stash pop"]}
+                                             "git diff -- menelaus > x.diff; git checkout -- menelaus; demo again; git apply x.diff"]}
     m["demo_output_with_change"] = o1.strip()[-600:]
     save(name, m)
     print("verify", name, "OK" if ok else "NOT CONFIRMED", rc1, rc3, o2.strip().splitlines()[-1] if o2.strip() else "")
